@@ -21,6 +21,8 @@ import time
 from pathlib import Path
 
 VERIF = Path(__file__).resolve().parent.parent
+# tooling only (seeded-defect runs against a scratch copy): where replays/ and evidence/ are written
+OUT = Path(os.environ.get("DSIM_OUT", str(VERIF)))
 PY = "/venv/bin/python"
 HASHSEEDS = 4
 
@@ -311,7 +313,7 @@ def run_check(prop: str, tier: str, verif_seed: int, workers: int | None = None)
         exit_code = 1 if new_sigs_for_exit else 0
     if new_sigs:
         exit_code = 1
-        (VERIF / "replays").mkdir(exist_ok=True)
+        (OUT / "replays").mkdir(parents=True, exist_ok=True)
         for sig in new_sigs[:3]:
             idx, v = min(by_sig[sig], key=lambda iv: iv[0])
             spec = specs.get(idx)
@@ -328,8 +330,7 @@ def run_check(prop: str, tier: str, verif_seed: int, workers: int | None = None)
                 small, nruns = spec, 0
             # fresh-process replay must reproduce
             fresh_ok, digest, detail = replay_once(prop, small, sig)
-            path = VERIF / "replays" / f"{prop}-{spec['seed']}-{abs(hash(sig)) % 10**8:08d}.json"
-            path = VERIF / "replays" / f"{prop}-{spec['seed']}-{_sig_slug(sig)}.json"
+            path = OUT / "replays" / f"{prop}-{spec['seed']}-{_sig_slug(sig)}.json"
             doc = {"property": prop, "signature": sig, "verif_seed": verif_seed, "index": idx,
                    "hashseed": small.get("hashseed", 0), "digest": digest, "detail": detail or v["detail"],
                    "shrink_runs": nruns, "spec": small}
@@ -487,5 +488,5 @@ def write_evidence(prop, mod, tier, verif_seed, results, samples, specs, sweep_s
         "wall_s": round(wall_s, 2),
         "violations": len(new_sigs),
     }
-    (VERIF / "evidence").mkdir(exist_ok=True)
-    (VERIF / "evidence" / f"{prop}.json").write_text(json.dumps(ev, indent=1, default=str))
+    (OUT / "evidence").mkdir(parents=True, exist_ok=True)
+    (OUT / "evidence" / f"{prop}.json").write_text(json.dumps(ev, indent=1, default=str))
